@@ -42,6 +42,11 @@ def cases(tier):
     return out
 
 
+def interp_cases(tier):
+    """interpreted pass (NUMBA_DISABLE_JIT=1)"""
+    return [{"mesh": "mixedpatch", "prov": "derived", "cap": 2}, {"mesh": "amstrip", "prov": "centres", "cap": 2}, {"mesh": "pyr5", "prov": "mpas-nodist", "cap": 1}]
+
+
 def selftest_case(tier):
     return {"mesh": "mixedpatch", "prov": "derived", "cap": 3}
 
